@@ -32,7 +32,7 @@ Res(scope, decided, fails, tags, exp) ==
   [scope |-> scope, decided |-> decided, fails |-> fails, tags |-> tags, exp |-> exp]
 
 \* ------------------------------------------------------------------ C09
-\* event = [k, ko, ref, refgiven, refobj, num, den, delta, eps, useobj, objc, sub,
+\* event = [k, ko, ref, refgiven, refobj, num, den, delta, eps, useobj, objc, sub, hist,
 \*          outcome ("ok" | "exc:<class>" | "crash:<signal>"), status, objk ("num" | "nan"), obj, v]
 RanOK(ev) == ev.outcome = "ok" /\ ev.status = "optimal" /\ ev.objk = "num"
 
@@ -55,6 +55,7 @@ JudgePfba(M, ev, F) ==
                 \cup Fails("objective_is_total_flux", full => Near(FxL1(ev.v), ev.obj, NTol(M)))
                 \cup Fails("minimal", dec => Near(ev.obj, ml1 * Scale, Tol)),
            (IF M.dir = "min" THEN {"dir_min"} ELSE {}) \cup (IF ev.useobj THEN {"objective_arg"} ELSE {})
+             \cup (IF ev.hist # "none" THEN {"stale_fixed_objective"} ELSE {})
              \cup (IF ~full THEN {"reactions_arg"} ELSE {}) \cup (IF ev.num # ev.den THEN {"fraction_lt_1"} ELSE {}),
            <<ml1>>)
 
